@@ -214,4 +214,5 @@ package blockwise
 //@   ensures [sent-at-most-once] callCount(do) <= 1
 //@   ensures [large-body-goes-as-first-block] called(EncodeBlockOption) ==> callArg(EncodeBlockOption, 0, 0) == maxSzx && callArg(EncodeBlockOption, 0, 1) == 0 && callArg(EncodeBlockOption, 0, 2) && (called(do) ==> callArg(do, 0, 0) == callRes(AcquireMessage, 0, 0))
 //@   ensures [small-body-goes-whole] called(do) && notCalled(EncodeBlockOption) ==> callArg(do, 0, 0) == r
+//@   ensures [first-block-options] called(do) && called(EncodeBlockOption) ==> callCount(SetOptionUint32) == 2 && callArg(SetOptionUint32, 0, 0) == callArg(do, 0, 0) && callArg(SetOptionUint32, 0, 1) == 60 && callArg(SetOptionUint32, 0, 2) == callRes(BodySize, 0, 0) && callArg(SetOptionUint32, 1, 0) == callArg(do, 0, 0) && callArg(SetOptionUint32, 1, 1) == 27 && callArg(SetOptionUint32, 1, 2) == callRes(EncodeBlockOption, 0, 0)
 //@   param do:
